@@ -366,6 +366,11 @@ def bc_def_other(check, proj):
             pref = p if name == "insub" else A.sym("p_imposed", positive=True)
             ptot = pref * A.pow(1 + (gam - 1) / 2 * M2, gam / (gam - 1))
             ent = {"ptot": ptot, "rttot": rttot, "p": pref}
+            if name == "insub":
+                # 'insub' takes its pressure from the interior and its direction from the normal: keys of OTHER conditions
+                # left in the caller's dictionary (one reference dictionary whose 'type' is switched) must not matter
+                ent["p"] = A.sym("p_spare_key", positive=True)
+                ent["angle"] = A.sym("angle_spare_key")
             ang = None
             if with_angle:
                 ent["angle"] = A.sym("angle_deg")
